@@ -22,6 +22,8 @@ Copy i uses two letters (p, q); the kinds of classes of a copy:
              Ev = Ps - Od and gives Ps - a class of the original specification - another rule than it had
   variant D: C = the Dyck words over (p, q): C = eps + N, N = p C q C - an algebraic class (no rational generating function), a product
              with the same non-atom child twice
+  variant H: C = p^8 followed by a Dyck word (a product with eight equal atoms): the spurious solution of the system agrees with the counts
+             below order 6
   variant Z: as Y, but the pack offered for C keeps its strategies in an expansion set (verification strategies first in pack order)
   variant S: C = (p|q)+ = X + swap(X): a union rule with the *same* child class twice, told apart by the child index only
 Root R = g + C1 + ... + Ck  (`g` a one-letter atom). Everything the oracle needs is generated directly from these
@@ -104,8 +106,10 @@ def _words(name, n, sig):
         return [t for t in _tails(p, q, n) if q in t]
     if kind == "gPq":
         return ["g" + t for t in _words("Pq" + k, n - 1, sig)] if n >= 1 else []
-    if kind == "Nd":  # non-empty Dyck words: p D q D
+    if kind in ("Nd", "Nk"):  # non-empty Dyck words: p D q D
         return [w for w in _dyck(p, q, n) if w]
+    if kind == "Dk":
+        return _dyck(p, q, n)
     if kind == "Ev":
         return [p * n] if n % 2 == 0 else []
     if kind == "Od":
@@ -127,6 +131,8 @@ def _words(name, n, sig):
             return [p * (2 * i) + q + p * (n - 1 - 2 * i) for i in range(n) if n - 1 - 2 * i >= 0]
         if v == "D":
             return _dyck(p, q, n)
+        if v == "H":
+            return [p * 8 + w for w in _dyck(p, q, n - 8)] if n >= 8 else []
         if v == "Q":
             return _words("Aq" + k, n, sig) + _words("Y" + k, n, sig) + _words("gPq" + k, n, sig)
         if v == "S":
@@ -136,7 +142,7 @@ def _words(name, n, sig):
 
 
 def _min(name, sig):
-    return next(n for n in range(0, 8) if _words(name, n, sig)) if name[:-1] != "E" else 0
+    return next(n for n in range(0, 12) if _words(name, n, sig)) if name[:-1] != "E" else 0
 
 
 class GL(CombinatorialClass):
@@ -237,7 +243,7 @@ class GProd(_Table, CartesianProductStrategy):
             _, q = LETTERS[int(c.name[-1])]
             i = str(obj).rindex(q) + 1
             return (W(obj[:i]), W(obj[i:]))
-        if c.name.startswith("Nd"):  # p D q D: split at the first return to height 0
+        if c.name.startswith("Nd") or c.name.startswith("Nk"):  # p D q D: split at the first return to height 0
             p_, _q = LETTERS[int(c.name[-1])]
             h = 0
             for i, ch in enumerate(str(obj)):
@@ -416,6 +422,11 @@ def inner_pack(sig):
         if v == "D":  # Dyck words: C = eps + N, N = p C q C (an algebraic class; a product with the same non-atom child twice)
             union["C" + k] = ("Eps" + k, "Nd" + k)
             prod["Nd" + k] = ("Y" + k, "C" + k, "T" + k, "C" + k)
+            continue
+        if v == "H":  # p^8 followed by a Dyck word: the two power-series solutions of the system agree below order 6
+            prod["C" + k] = ("Y" + k,) * 8 + ("Dk" + k,)
+            union["Dk" + k] = ("Eps" + k, "Nk" + k)
+            prod["Nk" + k] = ("Y" + k, "Dk" + k, "T" + k, "Dk" + k)
             continue
         if v == "S":
             sym["C" + k] = ("X" + k,)
